@@ -81,5 +81,41 @@ func propSpecs() map[string]*PropSpec {
 	add(treeSpec("C03", "H_C03", "bounded symbolic execution of Parse; leaf cover counted per source byte; no-dup and no-loss clauses asserted on every path", ""))
 	add(treeSpec("C05", "H_C05", "bounded symbolic execution of Parse; node grammar table and accessor ranges asserted for every node on every path", "H_C05s"))
 	add(treeSpec("C13", "H_C13", "bounded symbolic execution of Parse; construct shape table evaluated on Source[span] (symbolic bytes) for every node on every path", ""))
+	c15 := &PropSpec{ID: "C15", Level: "model_checking", Assumptions: append([]string{"a 'line' is n bytes without LF/CR followed by one of: nothing, LF, CR, CRLF; leading indentation already stripped (first byte not space/tab), as the recognisers' callers guarantee"}, commonAssumptions...), QuickSec: 170, ThoroughSec: 1500,
+		Explanation: "unit-level bounded symbolic execution of the unexported recognisers and classifiers against reference recognisers transcribed from the CommonMark 0.30 text, plus the same decisions observed through Parse; NormalizeURI and IsEmailAddress against RFC 3986 character classes / the spec's regular expression"}
+	j := func(h string, a int64, bound, tier string) {
+		c15.Jobs = append(c15.Jobs, JobSpec{Pkg: pkgCM, Harness: h, Params: []int64{a, 0}, Bound: bound, Tier: tier})
+	}
+	j("H_C15_classes", 0, "all 256 byte values (exhaustive)", "quick")
+	for _, h := range []string{"H_C15_thematic", "H_C15_atx", "H_C15_setext", "H_C15_fence"} {
+		for n := int64(0); n <= 6; n++ {
+			j(h, n, fmt.Sprintf("all lines with %d body bytes x 4 line endings", n), "quick")
+		}
+		j(h, 7, "all lines with 7 body bytes x 4 line endings", "thorough")
+		j(h, 8, "all lines with 8 body bytes x 4 line endings", "thorough")
+	}
+	for n := int64(0); n <= 7; n++ {
+		j("H_C15_marker", n, fmt.Sprintf("all lines with %d body bytes x 4 line endings", n), "quick")
+	}
+	for n := int64(8); n <= 12; n++ {
+		j("H_C15_marker", n, fmt.Sprintf("all lines with %d body bytes x 4 line endings (nine-digit numbers at 10+)", n), "thorough")
+	}
+	j("H_C15_marker", 11, "all lines with 11 body bytes (nine digits + delimiter + follower)", "quick")
+	j("H_C15_api", 1, "one-line documents, 1 body byte, through Parse", "quick")
+	j("H_C15_api", 2, "one-line documents, 2 body bytes, through Parse", "quick")
+	j("H_C15_api", 3, "one-line documents, 3 body bytes, through Parse", "quick")
+	j("H_C15_api", 4, "one-line documents, 4 body bytes, through Parse", "thorough")
+	for n := int64(0); n <= 3; n++ {
+		j("H_C15_uri", n, fmt.Sprintf("NormalizeURI on all byte strings of length %d (incl. invalid UTF-8)", n), "quick")
+	}
+	j("H_C15_uri", 4, "NormalizeURI on all byte strings of length 4", "thorough")
+	for n := int64(0); n <= 4; n++ {
+		j("H_C15_email", n, fmt.Sprintf("IsEmailAddress on all byte strings of length %d", n), "quick")
+	}
+	j("H_C15_email", 5, "IsEmailAddress on all byte strings of length 5", "thorough")
+	for _, k := range []int64{59, 60, 61, 62, 63, 64} {
+		j("H_C15_email_label", k, fmt.Sprintf("a@ + %d x 'a' + 2 free label bytes (63-character label limit)", k), "quick")
+	}
+	add(c15)
 	return m
 }
